@@ -59,6 +59,11 @@ func modeFor(prop string) (*histMode, error) {
 			oracle: func(h *hist.History, o *hist.Outcome) []hist.Problem {
 				return append(baseOracle(h, o), hist.CheckConvergence(o)...)
 			}}, nil
+	case "C11":
+		return &histMode{flavors: []string{"counter", "object", "array"}, proto: true,
+			gen: hist.GenConfig{MinClients: 2, MaxClients: 4, MinSteps: 8, MaxSteps: 30, Detach: true, Deactivate: true, Late: true},
+			oracle: func(h *hist.History, o *hist.Outcome) []hist.Problem { return nil },
+			roracle: hist.CheckMinVVExact}, nil
 	case "C04":
 		return &histMode{flavors: []string{"counter", "object", "array", "mixed"}, proto: true,
 			gen: hist.GenConfig{MinClients: 2, MaxClients: 5, MinSteps: 6, MaxSteps: 40, Inflight: true, PushOnly: true, Retry: true, Detach: true, Presence: true},
